@@ -33,9 +33,9 @@ package vgirpc
 //@   at call arrow.NewMetadata assert [requestid] requestID != "" ==> arg0[len(arg0)-1] == MetaRequestID && arg1[len(arg1)-1] == requestID
 //@   at call array.NewRecordBatchWithMetadata assert [zerorows] arg0 == schema && arg2 == 0 && arg3 == meta
 //@   at call (*ipc.Writer).Write assert [one] arg0 == w
-// (errorKindCarrier.ErrorKind is a getter on the framework's own error types: assumed to write nothing)
-//@ func "errorKindCarrier.ErrorKind" (e)
-//@   modifies nothing
+// (errorKindCarrier.ErrorKind is a getter on the framework's own error types: assumed to write
+// nothing; what it returns is specified, and checked against every implementation, in
+// verif_contracts_errors.go)
 //@ func writeErrorBatch
 //@   property C04
 //@   at call arrow.NewMetadata assert [exception] len(arg0) == len(arg1) && len(arg0) >= 3 && arg0[0] == MetaLogLevel && arg1[0] == "EXCEPTION" && arg0[1] == MetaLogMessage && arg0[2] == MetaLogExtra && arg1[2] == extraJSON
